@@ -23,10 +23,27 @@ def vector_configs(tier, seed, alloc_lists=("OneFixed", "OneVarying", "ObjFixed"
     return out
 
 
-def run_vector(prop, modname, tier, seed, explanation, min_cfg=60, min_ob=500, cfgs=None, **kw):
+def elem_configs(tier, seed):
+    """parameter list x allocator kind for the ContiguousElement witnesses"""
+    C = config
+    lists = C.QUICK_LISTS if tier == "quick" else C.thorough_lists(seed, limit=120)
+    cfgs = [(pl, C.A_NONE) for pl in lists]
+    rep = [pl for pl in C.QUICK_LISTS if pl.name in ("OneFixed", "OneVarying", "ObjFixed", "ObjVarying", "Plain", "ObjPlain", "VaryingUnalignedCount")]
+    allocs = C.QUICK_ALLOCS if tier == "quick" else C.all_allocs()
+    cfgs += [(pl, ak) for pl in rep for ak in allocs if ak is not C.A_NONE]
+    return cfgs
+
+
+def run_vector(prop, modname, tier, seed, explanation, min_cfg=60, min_ob=500, cfgs=None, elements=None, **kw):
     ctx = Ctx(prop, tier, seed)
     cfgs = cfgs if cfgs is not None else vector_configs(tier, seed)
     corpus.run(ctx, modname, "rule", cfgs, **kw)
+    if elements:
+        # the same rules on the ContiguousElement witnesses (rule function `elements` of the module)
+        from .. import gen
+        ecfgs = elem_configs(tier, seed)
+        corpus.run(ctx, modname, elements, ecfgs, flags=("-fno-exceptions",) + gen.ELEM_FLAGS, extra={"gen": "gen_elem_tu"})
+        ctx.count("element_configurations", len(ecfgs))
     ctx.floor("configurations", len(cfgs), min_cfg)
     ctx.floor("obligations", ctx.obligations, min_ob)
     return finish(ctx, "other", explanation, ASSUME, TRUSTED, "python3 -m cv check %s --tier %s" % (prop, tier))
